@@ -14,5 +14,6 @@ package roi
 //@ func Data.PutSpans
 //@   prop C20
 //@   safety_off
+//@   calls_havoc
 //@   lockbalance
 //@   modifies *
